@@ -248,6 +248,7 @@ type fnEnc struct {
 	rangeSrc map[ssa.Value]ssa.Value
 	deferSt  map[*ssa.Defer]string
 	onReturn func(st *state, res []tval)
+	specConsts map[string]string
 }
 
 type inputVar struct {
@@ -271,13 +272,33 @@ func (e *fnEnc) freshName(prefix string) string {
 
 func (e *fnEnc) declare(prefix string, s *Sort) string {
 	n := e.freshName(prefix)
-	e.emit(fmt.Sprintf("(declare-const %s %s)", n, s.name))
+	switch s.kind {
+	case skSlice:
+		// components as separate constants: lets the solvers' equation solving eliminate them
+		e.emit(fmt.Sprintf("(declare-const %s_b Ref)\n(declare-const %s_o (_ BitVec 64))\n(declare-const %s_l (_ BitVec 64))\n(declare-const %s_c (_ BitVec 64))\n(define-fun %s () Slice (mkslice %s_b %s_o %s_l %s_c))", n, n, n, n, n, n, n, n, n))
+	case skIface:
+		e.emit(fmt.Sprintf("(declare-const %s_t Int)\n(declare-const %s_v Ref)\n(define-fun %s () Iface (mkiface %s_t %s_v))", n, n, n, n, n))
+	default:
+		e.emit(fmt.Sprintf("(declare-const %s %s)", n, s.name))
+	}
 	return n
 }
 
 func (e *fnEnc) define(prefix string, s *Sort, term string) string {
 	n := e.freshName(prefix)
 	e.emit(fmt.Sprintf("(define-fun %s () %s %s)", n, s.name, term))
+	return n
+}
+
+// defineGuard introduces a path condition as a declared Boolean constant with a defining
+// equation (not a macro): asserting a reach constant then lets the solvers' value
+// propagation turn guarded facts into top-level facts before equation solving.
+func (e *fnEnc) defineGuard(prefix string, term string) string {
+	if term == "true" || term == "false" {
+		return term
+	}
+	n := e.freshName(prefix)
+	e.emit(fmt.Sprintf("(declare-const %s Bool)\n(assert (= %s %s))", n, n, term))
 	return n
 }
 
@@ -469,7 +490,7 @@ func (e *fnEnc) topo() []*ssa.BasicBlock {
 func (V *Verifier) encodeFunction(fn *ssa.Function, fc *FuncContract) (enc *fnEnc) {
 	e := &fnEnc{V: V, fn: fn, fc: fc, lazySet: map[string]bool{}, vals: map[ssa.Value]string{}, tuples: map[ssa.Value][]string{},
 		out: map[*ssa.BasicBlock]*state{}, edgeCond: map[[2]int]string{}, anchors: map[string]int{}, params: map[string]tval{},
-		closures: map[ssa.Value]*ssa.MakeClosure{}, rangeSrc: map[ssa.Value]ssa.Value{}, deferSt: map[*ssa.Defer]string{}}
+		closures: map[ssa.Value]*ssa.MakeClosure{}, rangeSrc: map[ssa.Value]ssa.Value{}, deferSt: map[*ssa.Defer]string{}, specConsts: map[string]string{}}
 	enc = e
 	defer func() {
 		if r := recover(); r != nil {
@@ -553,9 +574,9 @@ func (e *fnEnc) assumeWF(st *state, term string, t types.Type) {
 	case *types.Slice:
 		e.assume(st, and(app("slice_wf", term), fmt.Sprintf("(< (rootn (s_base %s)) %s)", term, st.next)))
 	case *types.Pointer, *types.Map, *types.Chan, *types.Signature:
-		e.assume(st, fmt.Sprintf("(< (rootn %s) %s)", term, st.next))
+		e.assume(st, and(app("ref_wf", term), fmt.Sprintf("(< (rootn %s) %s)", term, st.next)))
 	case *types.Interface:
-		e.assume(st, and(fmt.Sprintf("(< (rootn (i_val %s)) %s)", term, st.next), fmt.Sprintf("(>= (i_tag %s) 0)", term),
+		e.assume(st, and(app("ref_wf", app("i_val", term)), fmt.Sprintf("(< (rootn (i_val %s)) %s)", term, st.next), fmt.Sprintf("(>= (i_tag %s) 0)", term),
 			fmt.Sprintf("(=> (= (i_tag %s) 0) (= (i_val %s) null))", term, term)))
 	case *types.Basic:
 		if u.Info()&types.IsString != 0 {
@@ -605,15 +626,15 @@ func (e *fnEnc) mergePreds(b *ssa.BasicBlock) *state {
 	}
 	if len(preds) == 1 {
 		st := e.out[preds[0]].clone()
-		st.reach = e.define("reach_b"+fmt.Sprint(b.Index), sortBool, e.edge(preds[0], b))
+		st.reach = e.defineGuard("reach_b"+fmt.Sprint(b.Index), e.edge(preds[0], b))
 		return st
 	}
 	conds := make([]string, len(preds))
 	for i, p := range preds {
-		conds[i] = e.define(fmt.Sprintf("edge_%d_%d", p.Index, b.Index), sortBool, e.edge(p, b))
+		conds[i] = e.defineGuard(fmt.Sprintf("edge_%d_%d", p.Index, b.Index), e.edge(p, b))
 	}
 	st := &state{heap: map[string]string{}}
-	st.reach = e.define("reach_b"+fmt.Sprint(b.Index), sortBool, or(conds...))
+	st.reach = e.defineGuard("reach_b"+fmt.Sprint(b.Index), or(conds...))
 	// epoch: same if all equal, else new
 	same := true
 	for _, p := range preds[1:] {
@@ -772,15 +793,27 @@ func (e *fnEnc) enterLoop(li *loopInfo, entry *state) *state {
 	}
 	// 2. havoc loop targets
 	head := entry.clone()
-	for _, p := range phis {
-		n := e.declare("lp_"+phiName(p), e.sortOf(p.Type()))
-		e.vals[p] = n
-		li.phiPre[p] = n
-		e.assumeWF(head, n, p.Type())
-	}
 	writesAll, keys := e.loopWrites(li)
+	if !writesAll && e.loopAllocates(li) {
+		// objects allocated by earlier iterations exist at the head
+		nn := e.declare("next", &Sort{name: "Int"})
+		e.assume(head, fmt.Sprintf("(>= %s %s)", nn, head.next))
+		head.next = nn
+	}
+	declPhis := func() {
+		for _, p := range phis {
+			n := e.declare("lp_"+phiName(p), e.sortOf(p.Type()))
+			e.vals[p] = n
+			li.phiPre[p] = n
+			e.assumeWF(head, n, p.Type())
+		}
+	}
+	if !writesAll {
+		declPhis()
+	}
 	if writesAll {
 		e.havocAll(head)
+		declPhis()
 	} else {
 		for _, k := range keys {
 			cell := e.cellSortOfKey(k)
@@ -794,11 +827,6 @@ func (e *fnEnc) enterLoop(li *loopInfo, entry *state) *state {
 				e.emit(fmt.Sprintf("(assert (forall ((a Ref)) (! (=> (< (rootn a) %s) (= (select %s a) (select %s a))) :pattern ((select %s a)))))", e.entry.next, nh, e.heap(e.entry, k, cell), nh))
 			}
 			_ = old
-		}
-		if len(keys) > 0 || e.loopAllocates(li) {
-			nn := e.declare("next", &Sort{name: "Int"})
-			e.assume(head, fmt.Sprintf("(>= %s %s)", nn, head.next))
-			head.next = nn
 		}
 	}
 	// 3. assume invariants
@@ -943,7 +971,13 @@ func (e *fnEnc) loopWrites(li *loopInfo) (all bool, keys []string) {
 				if eff == effAll {
 					all = true
 				} else if eff == effSome {
-					all = true
+					ts, ok := e.modifiedTypes(c)
+					if !ok {
+						all = true
+					}
+					for _, t := range ts {
+						addType(t)
+					}
 				}
 			}
 		}
@@ -1042,4 +1076,32 @@ func (V *Verifier) strConstName(s string) string {
 	n := fmt.Sprintf("strc_%d", len(V.strConst))
 	V.strConst[s] = n
 	return n
+}
+
+// modifiedTypes returns the Go types of the cells a callee's modifies clause names.
+func (e *fnEnc) modifiedTypes(c *ssa.CallCommon) (ts []types.Type, ok bool) {
+	fc := e.contractFor(c)
+	if fc == nil {
+		return nil, false
+	}
+	defer func() {
+		if r := recover(); r != nil {
+			ts, ok = nil, false
+		}
+	}()
+	var args []tval
+	if c.IsInvoke() {
+		args = append(args, tval{term: "nil_iface", typ: c.Value.Type()})
+	}
+	for _, a := range c.Args {
+		args = append(args, tval{term: e.V.ST.zeroValue(e.sortOf(a.Type())), typ: a.Type()})
+	}
+	scratch := &state{reach: "true", heap: map[string]string{}, epoch: 0, next: "0"}
+	en := e.calleeEnv(scratch, scratch, c, e.staticCallee(c), args)
+	for _, m := range fc.Modifies {
+		for _, ma := range en.modAddrs(m) {
+			ts = append(ts, ma.typ)
+		}
+	}
+	return ts, true
 }
